@@ -1,5 +1,6 @@
 pub mod c05;
 pub mod c09;
+pub mod c10;
 pub mod hist;
 
 use crate::harness::Arm;
@@ -9,6 +10,7 @@ pub fn all_arms() -> Vec<Box<dyn Arm>> {
     v.extend(hist::arms());
     v.push(Box::new(c05::C05));
     v.push(Box::new(c09::C09));
+    v.push(Box::new(c10::C10));
     v
 }
 
